@@ -2,12 +2,21 @@
 //!
 //! `hist3` / `hist2` args:  <mesh> <nops> <op>*      mesh = nv <coords> ni <idx> flags
 //!     op = `sf <flags>` | `rev` | `app <mesh>` | `tv <n> <isometry components>` (3-D: qi qj qk qw tx ty tz; 2-D: re im tx ty)
+//!        | `sc <n> <scale components>` (`mesh = mesh.scaled(&scale)`, any sign)
 //! output: segments joined by ` ; `
 //!     initial: `empty` | `panic` | <state>
 //!     sf     : `panic` | (`ok` | `badtri f` | `badadj t1 t2 e0 e1`) <state>
 //!     rev    : `panic` | <state>
 //!     app    : `rhsfail` (rhs could not be built, op skipped) | `panic` | <state>
-//! state = V nv coords I ni idx F flags A <root aabb mins maxs> Q <1 iff the QBVH equals the QBVH of the fresh builds> D <derived> L <lit> G <der>
+//!     sc     : `emptysc` (the mesh has no triangle left, op skipped) | `panic` | <state>
+//! state = V nv coords I ni idx F flags A <root aabb mins maxs> Q <q> B <n> <leaf boxes> H <h> D <derived> L <lit> G <der>
+//!     q = 1 iff the QBVH equals (node for node) the QBVH of the fresh builds; after a `sc` (which transforms the tree in place:
+//!         a fresh build on non-uniformly scaled triangles may split differently) and until the next operation that rebuilds
+//!         it (`tv`, `app`, a `sf` that changes the number of triangles) the tree is judged through `B` and `H` only and q = 1
+//!     B   = for every triangle id (= proxy id) the box stored in its leaf slot (`x` if the proxy designates no leaf slot)
+//!     h = 1 iff the tree is a bounding hierarchy of these leaves: every triangle is reached exactly once from the root, every
+//!         leaf slot points back to its proxy, the box of every inner slot is the merge of the non-empty slots of its child,
+//!         and `root_aabb` is the box of the root slot
 //!     derived = T <topo> C <cc> P <pn>
 //!     lit = `e` (indices empty) | `u` (a fresh with_flags on the current buffers+flags changes the buffers)
 //!           | <derived> of that fresh mesh
@@ -37,7 +46,7 @@ pub fn derive_flags(f: u16) -> u16 {
 #[derive(Clone, Debug)]
 pub struct RawMesh { pub v: Vec<Vec<f64>>, pub i: Vec<[u32; 3]>, pub f: u16 }
 #[derive(Clone, Debug)]
-pub enum RawOp { Sf(u16), Rev, App(RawMesh), Tv(Vec<f64>) }
+pub enum RawOp { Sf(u16), Rev, App(RawMesh), Tv(Vec<f64>), Sc(Vec<f64>) }
 
 pub fn read_mesh(a: &mut Args, d: usize) -> RawMesh {
     let nv = a.u();
@@ -54,6 +63,7 @@ pub fn read_ops(a: &mut Args, d: usize) -> Vec<RawOp> {
         "rev" => RawOp::Rev,
         "app" => RawOp::App(read_mesh(a, d)),
         "tv" => { let n = a.u(); RawOp::Tv((0..n).map(|_| a.f()).collect()) }
+        "sc" => { let n = a.u(); RawOp::Sc((0..n).map(|_| a.f()).collect()) }
         t => panic!("bad op {}", t),
     }).collect()
 }
@@ -74,6 +84,7 @@ pub fn show_case(m: &RawMesh, ops: &[RawOp]) -> String {
             RawOp::Rev => s.push_str(" rev"),
             RawOp::App(r) => { s.push_str(" app "); s.push_str(&show_mesh(r)); }
             RawOp::Tv(xs) => { s.push_str(&format!(" tv {} {}", xs.len(), hxs(xs.iter()))); }
+            RawOp::Sc(xs) => { s.push_str(&format!(" sc {} {}", xs.len(), hxs(xs.iter()))); }
         }
     }
     s
@@ -83,9 +94,15 @@ macro_rules! dim_impl {
     ($m:ident, $p:ident, $d:expr, $pn:expr, $iso:expr) => {
         pub mod $m {
             use super::*;
+<<<<<<< HEAD
             use crate::$p::math::{Isometry, Point, Real, Vector};
             use crate::$p::query::{self, PointQuery, Ray, RayCast};
             use crate::$p::shape::{Ball, TopologyError, TriMesh, TriMeshFlags};
+=======
+            use crate::$p::bounding_volume::Aabb;
+            use crate::$p::math::{Point, Real, Vector};
+            use crate::$p::shape::{TopologyError, TriMesh, TriMeshFlags};
+>>>>>>> fu2-F11
 
             fn pts(m: &RawMesh) -> Vec<Point<Real>> {
                 m.v.iter().map(|c| Point::from_slice(&c[..])).collect()
@@ -134,9 +151,65 @@ macro_rules! dim_impl {
                 s
             }
             fn qdump(m: &TriMesh) -> String {
-                format!("{:?} {:?} {:?}", m.qbvh().raw_nodes(), m.qbvh().raw_proxies(), m.qbvh().root_aabb())
+                let d = format!("{:?} {:?} {:?}", m.qbvh().raw_nodes(), m.qbvh().raw_proxies(), m.qbvh().root_aabb());
+                // `-0.0` and `0.0` are the same bound (a mirroring `scaled` turns 0.0 into -0.0, and `f64::min(-0.0, 0.0)` depends on
+                // the argument order): print both as `0.0`
+                let bytes = d.as_bytes();
+                let mut o = String::with_capacity(d.len());
+                let mut i = 0;
+                while i < bytes.len() {
+                    if bytes[i..].starts_with(b"-0.0") && !bytes.get(i + 4).map_or(false, |c| c.is_ascii_digit() || *c == b'e' || *c == b'E') {
+                        o.push_str("0.0"); i += 4;
+                    } else { o.push(bytes[i] as char); i += 1; }
+                }
+                o
             }
-            fn state(m: &TriMesh) -> String {
+            fn fbox(b: &Aabb) -> String { format!("{} {}", ffs(b.mins.coords.iter()), ffs(b.maxs.coords.iter())) }
+            fn beq(a: &Aabb, b: &Aabb) -> bool { a.mins == b.mins && a.maxs == b.maxs }
+            /// leaf boxes by triangle id, and whether the tree is a bounding hierarchy of them (see the header)
+            pub fn qsem(m: &TriMesh) -> (String, bool) {
+                let nodes = m.qbvh().raw_nodes();
+                let prox = m.qbvh().raw_proxies();
+                let mut s = format!("{}", prox.len());
+                let mut ok = prox.len() == m.indices().len();
+                for (i, p) in prox.iter().enumerate() {
+                    let (ni, l) = (p.node.index as usize, p.node.lane as usize);
+                    if ni < nodes.len() && l < 4 && nodes[ni].is_leaf() && nodes[ni].children[l] as usize == i {
+                        s.push(' '); s.push_str(&fbox(&nodes[ni].simd_aabb.extract(l)));
+                    } else { s.push_str(" x"); ok = false; }
+                }
+                // walk from the root; `visit` returns the merge of the non-empty slots of a node
+                fn visit(nodes: &[crate::$p::partitioning::QbvhNode], id: usize, seen_node: &mut Vec<bool>, seen_leaf: &mut Vec<u32>, ok: &mut bool) -> Option<Aabb> {
+                    if id >= nodes.len() || seen_node[id] { *ok = false; return None; }
+                    seen_node[id] = true;
+                    let n = &nodes[id];
+                    let mut acc: Option<Aabb> = None;
+                    for l in 0..4 {
+                        let c = n.children[l];
+                        if c == u32::MAX { continue; }
+                        let bx = n.simd_aabb.extract(l);
+                        let sub = if n.is_leaf() {
+                            if (c as usize) < seen_leaf.len() { seen_leaf[c as usize] += 1; } else { *ok = false; }
+                            Some(bx)
+                        } else {
+                            if (c as usize) < nodes.len() && (nodes[c as usize].parent.index as usize != id || nodes[c as usize].parent.lane as usize != l) { *ok = false; }
+                            let sub = visit(nodes, c as usize, seen_node, seen_leaf, ok);
+                            if let Some(sb) = &sub { if !beq(sb, &bx) { *ok = false; } }
+                            sub
+                        };
+                        if let Some(sb) = sub { acc = Some(match acc { None => sb, Some(a) => Aabb::new(a.mins.inf(&sb.mins), a.maxs.sup(&sb.maxs)) }); }
+                    }
+                    acc
+                }
+                if nodes.is_empty() { return (s, false); }
+                let mut seen_node = vec![false; nodes.len()];
+                let mut seen_leaf = vec![0u32; prox.len()];
+                let r = visit(nodes, 0, &mut seen_node, &mut seen_leaf, &mut ok);
+                if seen_leaf.iter().any(|&k| k != 1) { ok = false; }
+                match r { Some(rb) => if !beq(&rb, m.qbvh().root_aabb()) { ok = false; }, None => if !prox.is_empty() { ok = false; } }
+                (s, ok)
+            }
+            fn state(m: &TriMesh, loose: bool) -> String {
                 let mut s = format!("V {}", m.vertices().len());
                 for p in m.vertices() { s.push(' '); s.push_str(&ffs(p.coords.iter())); }
                 s.push_str(&format!(" I {}", m.indices().len()));
@@ -147,11 +220,14 @@ macro_rules! dim_impl {
                 // QBVH: root box, and structural equality with the QBVH of the fresh builds
                 let ab = m.local_aabb();
                 let mut q = 1;
-                if let Some(Ok(fr)) = &bg { if qdump(fr) != qdump(m) { q = 0; } }
-                if let Some(Ok(fr)) = &bl {
-                    if fr.vertices() == m.vertices() && fr.indices() == m.indices() && qdump(fr) != qdump(m) { q = 0; }
+                if !loose {
+                    if let Some(Ok(fr)) = &bg { if qdump(fr) != qdump(m) { q = 0; } }
+                    if let Some(Ok(fr)) = &bl {
+                        if fr.vertices() == m.vertices() && fr.indices() == m.indices() && qdump(fr) != qdump(m) { q = 0; }
+                    }
                 }
-                s.push_str(&format!(" F {} A {} {} Q {} D {}", f, ffs(ab.mins.coords.iter()), ffs(ab.maxs.coords.iter()), q, derived(m)));
+                let (lb, h) = qsem(m);
+                s.push_str(&format!(" F {} A {} {} Q {} B {} H {} D {}", f, ffs(ab.mins.coords.iter()), ffs(ab.maxs.coords.iter()), q, lb, b(h), derived(m)));
                 // literal fresh build
                 s.push_str(" L ");
                 match bl {
@@ -180,34 +256,48 @@ macro_rules! dim_impl {
                     Some(Err(())) => return "empty".into(),
                     Some(Ok(m)) => m,
                 };
-                out.push(state(&mesh));
+                let mut loose = false;
+                out.push(state(&mesh, loose));
                 for op in &ops {
                     match op {
                         RawOp::Sf(f) => {
+                            let prev_len = mesh.indices().len();
                             let r = catch_unwind(AssertUnwindSafe(|| mesh.set_flags(flags(*f))));
                             match r {
                                 Err(_) => { out.push("panic".into()); break; }
                                 Ok(res) => {
+                                    // `set_flags` rebuilds the QBVH from scratch exactly when the number of triangles changed
+                                    if mesh.indices().len() != prev_len { loose = false; }
                                     let rs = match res {
                                         Ok(()) => "ok".to_string(),
                                         Err(TopologyError::BadTriangle(t)) => format!("badtri {}", t),
                                         Err(TopologyError::BadAdjacentTrianglesOrientation { triangle1, triangle2, edge }) =>
                                             format!("badadj {} {} {} {}", triangle1, triangle2, edge.0, edge.1),
                                     };
-                                    out.push(format!("{} {}", rs, state(&mesh)));
+                                    out.push(format!("{} {}", rs, state(&mesh, loose)));
                                 }
                             }
                         }
                         RawOp::Rev => {
                             let r = catch_unwind(AssertUnwindSafe(|| mesh.reverse()));
                             if r.is_err() { out.push("panic".into()); break; }
-                            out.push(state(&mesh));
+                            out.push(state(&mesh, loose));
+                        }
+                        RawOp::Sc(xs) => {
+                            // a mesh that has lost all its triangles is outside the explored domain of `scaled` (see claims note)
+                            if mesh.indices().is_empty() { out.push("emptysc".into()); continue; }
+                            let sc = Vector::<Real>::from_column_slice(&xs[..]);
+                            let r = catch_unwind(AssertUnwindSafe(|| mesh.clone().scaled(&sc)));
+                            match r { Err(_) => { out.push("panic".into()); break; } Ok(m2) => mesh = m2 }
+                            loose = true;
+                            out.push(state(&mesh, loose));
                         }
                         RawOp::Tv(xs) => {
                             let iso = ($iso)(&xs[..]);
                             let r = catch_unwind(AssertUnwindSafe(|| mesh.transform_vertices(&iso)));
                             if r.is_err() { out.push("panic".into()); break; }
-                            out.push(state(&mesh));
+                            loose = false;
+                            out.push(state(&mesh, loose));
                         }
                         RawOp::App(r) => {
                             let rhs = match build(pts(r), r.i.clone(), r.f) {
@@ -216,13 +306,15 @@ macro_rules! dim_impl {
                             };
                             let r = catch_unwind(AssertUnwindSafe(|| mesh.append(&rhs)));
                             if r.is_err() { out.push("panic".into()); break; }
-                            out.push(state(&mesh));
+                            loose = false;
+                            out.push(state(&mesh, loose));
                         }
                     }
                 }
                 out.join(" ; ")
             }
 
+<<<<<<< HEAD
             // ---------------------------------------------------------- real queries on the final mesh of a history
             fn centroids(m: &TriMesh) -> Vec<Vec<f64>> {
                 let vs = m.vertices();
@@ -361,6 +453,58 @@ macro_rules! dim_impl {
                         st(guard("".into(), || match query::contact(&id, &mesh, &id, &ball, 0.5) { Ok(None) => "none".into(), Ok(Some(_)) => "some".into(), Err(_) => "u".into() })));
                 }
                 match queries(&mesh, &targets) { Ok(s) => s, Err(e) => format!("{} {}", e, header(&mesh)) }
+=======
+            /// apply a history without dumping; None = build failure / panic
+            pub fn run_ops(m0: &RawMesh, ops: &[RawOp]) -> Option<TriMesh> {
+                let mut mesh = match build(pts(m0), m0.i.clone(), m0.f) { Some(Ok(m)) => m, _ => return None };
+                for op in ops {
+                    let r = catch_unwind(AssertUnwindSafe(|| {
+                        let mut mesh = mesh.clone();
+                        match op {
+                            RawOp::Sf(f) => { let _ = mesh.set_flags(flags(*f)); }
+                            RawOp::Rev => mesh.reverse(),
+                            RawOp::Tv(xs) => { let iso = ($iso)(&xs[..]); mesh.transform_vertices(&iso); }
+                            RawOp::Sc(xs) => { if !mesh.indices().is_empty() { mesh = mesh.scaled(&Vector::<Real>::from_column_slice(&xs[..])); } }
+                            RawOp::App(r) => { if let Some(Ok(rhs)) = build(pts(r), r.i.clone(), r.f) { mesh.append(&rhs); } }
+                        }
+                        mesh
+                    }));
+                    match r { Ok(m) => mesh = m, Err(_) => return None }
+                }
+                Some(mesh)
+            }
+
+            /// `bvhq`: <mesh> <nops> <op>* <npts> <pts>  ->  `V nv coords I ni idx R <distance of every point to its projection>` | `nobuild`
+            /// (`project_local_point(p, solid)`, a best-first traversal of the QBVH; solid = true in 2-D, false in 3-D)
+            pub fn bvhq(a: &mut Args) -> String {
+                use crate::$p::query::PointQuery;
+                let m0 = read_mesh(a, $d);
+                let ops = read_ops(a, $d);
+                let npts = a.u();
+                let qs: Vec<Point<Real>> = (0..npts).map(|_| { let c: Vec<f64> = (0..$d).map(|_| a.f()).collect(); Point::from_slice(&c[..]) }).collect();
+                let mesh = match run_ops(&m0, &ops) { Some(m) => m, None => return "nobuild".into() };
+                let mut s = format!("V {}", mesh.vertices().len());
+                for p in mesh.vertices() { s.push(' '); s.push_str(&ffs(p.coords.iter())); }
+                s.push_str(&format!(" I {}", mesh.indices().len()));
+                for t in mesh.indices() { s.push_str(&format!(" {} {} {}", t[0], t[1], t[2])); }
+                s.push_str(" R");
+                for p in &qs {
+                    let pr = mesh.project_local_point(p, $d == 2);
+                    s.push(' '); s.push_str(&ff((p - pr.point).norm()));
+                }
+                s
+            }
+
+            /// `boxscale`: a b c scale -> `Triangle(a,b,c).local_aabb().scaled(scale)` then `Triangle(a∘s, b∘s, c∘s).local_aabb()`
+            pub fn boxscale(a: &mut Args) -> String {
+                use crate::$p::shape::Triangle;
+                let mut rd = || { let c: Vec<f64> = (0..$d).map(|_| a.f()).collect(); Point::<Real>::from_slice(&c[..]) };
+                let (pa, pb, pc, sc) = (rd(), rd(), rd(), rd().coords);
+                let b1 = Triangle::new(pa, pb, pc).local_aabb().scaled(&sc);
+                let sp = |p: &Point<Real>| Point::from(p.coords.component_mul(&sc));
+                let b2 = Triangle::new(sp(&pa), sp(&pb), sp(&pc)).local_aabb();
+                format!("{} {}", fbox(&b1), fbox(&b2))
+>>>>>>> fu2-F11
             }
         }
     };
@@ -385,22 +529,11 @@ dim_impl!(h2, p2, 2, |_m: &TriMesh| None,
 fn contains3(a: &mut Args) -> String {
     use crate::p3::math::Point;
     use crate::p3::query::PointQuery;
-    use crate::p3::shape::{TriMesh, TriMeshFlags};
     let m0 = read_mesh(a, 3);
     let ops = read_ops(a, 3);
     let npts = a.u();
     let pts: Vec<Point<f64>> = (0..npts).map(|_| Point::new(a.f(), a.f(), a.f())).collect();
-    let mk = |m: &RawMesh| TriMesh::with_flags(m.v.iter().map(|c| Point::new(c[0], c[1], c[2])).collect(), m.i.clone(),
-                                               TriMeshFlags::from_bits_truncate(m.f));
-    let mut mesh = match mk(&m0) { Ok(m) => m, Err(_) => return "nobuild".into() };
-    for op in &ops {
-        match op {
-            RawOp::Sf(f) => { let _ = mesh.set_flags(TriMeshFlags::from_bits_truncate(*f)); }
-            RawOp::Rev => mesh.reverse(),
-            RawOp::App(r) => { if let Ok(rhs) = mk(r) { mesh.append(&rhs); } }
-            RawOp::Tv(_) => {}
-        }
-    }
+    let mesh = match h3::run_ops(&m0, &ops) { Some(m) => m, None => return "nobuild".into() };
     pts.iter().map(|p| if mesh.contains_local_point(p) { "1" } else { "0" }).collect::<Vec<_>>().join(" ")
 }
 
@@ -428,11 +561,20 @@ fn scaled3(a: &mut Args) -> String {
 
 pub fn exec(func: &str, a: &mut Args) -> String {
     match func {
+<<<<<<< HEAD
         "hist3" | "hist3w" => h3::hist(a),
         "hist2" | "hist2w" => h2::hist(a),
         "histq3" => h3::histq(a),
         "histq2" => h2::histq(a),
+=======
+        "hist3" | "hist3w" | "hist3s" => h3::hist(a),
+        "hist2" | "hist2w" | "hist2s" => h2::hist(a),
+>>>>>>> fu2-F11
         "contains3" => contains3(a),
+        "bvhq3" => h3::bvhq(a),
+        "bvhq2" => h2::bvhq(a),
+        "boxscale3" => h3::boxscale(a),
+        "boxscale2" => h2::boxscale(a),
         "scaled3" => scaled3(a),
         _ => "nofn".into(),
     }
@@ -537,12 +679,59 @@ fn gen_mesh(r: &mut Rng, d: usize, small: bool) -> RawMesh {
     m
 }
 
+/// a scale vector: any sign (mirroring scales are the point), non-uniform or uniform, lattice or random magnitudes
+fn gen_scale(r: &mut Rng, d: usize) -> Vec<f64> {
+    let lat = r.bool();
+    let mag = |r: &mut Rng| if lat { *r.pick(&[0.25, 0.5, 1.0, 1.0, 2.0, 3.0]) } else { r.logu(0.1, 10.0) };
+    let mut s: Vec<f64> = if r.below(5) == 0 { let m = mag(r); vec![m; d] } else { (0..d).map(|_| mag(r)).collect() };
+    match r.below(4) {
+        0 => {}                                                             // all positive
+        1 => { let k = r.below(d as u64) as usize; s[k] = -s[k]; }          // one mirrored axis
+        2 => { for x in s.iter_mut() { *x = -*x; } }                        // all negative
+        _ => { for x in s.iter_mut() { if r.bool() { *x = -*x; } } }
+    }
+    s
+}
+fn gen_tv(r: &mut Rng, d: usize) -> RawOp {
+    let lat = r.bool();
+    if d == 3 { let q = d3::gen_quat(r, lat); let t: Vec<f64> = (0..3).map(|_| r.coord(lat, 5.0)).collect();
+                RawOp::Tv(vec![q[0], q[1], q[2], q[3], t[0], t[1], t[2]]) }
+    else { let (re, im) = d2::gen_rot(r, lat); RawOp::Tv(vec![re, im, r.coord(lat, 5.0), r.coord(lat, 5.0)]) }
+}
+/// histories built around `scaled`: a mesh that is not symmetric about the origin, a scale (half of them mirroring), and the
+/// operations that keep / reuse the transformed tree before and after it
+fn gen_scaled_hist(r: &mut Rng, d: usize) -> (RawMesh, Vec<RawOp>) {
+    let mut m = gen_mesh(r, d, false);
+    // move it off the origin (translation per axis, never symmetric): x -> x + t, t in ±[1, 6] (lattice) — keeps duplicates
+    if r.below(4) != 0 {
+        let tr: Vec<f64> = (0..d).map(|_| { let t = r.range(2, 12) as f64 * 0.5; if r.bool() { t } else { -t } }).collect();
+        for p in m.v.iter_mut() { for k in 0..d { let x = p[k] + tr[k]; p[k] = if x == 0.0 { 0.0 } else { x }; } }
+    }
+    let mut ops = vec![];
+    let pre = r.below(3);
+    for _ in 0..pre { ops.push(match r.below(4) { 0 => RawOp::Sf(gen_flags(r)), 1 => RawOp::Rev, 2 => gen_tv(r, d), _ => RawOp::Sf(m.f) }); }
+    ops.push(RawOp::Sc(gen_scale(r, d)));
+    let post = r.below(4);
+    for _ in 0..post {
+        ops.push(match r.below(8) {
+            0..=2 => RawOp::Sf(gen_flags(r)),
+            3 => RawOp::Rev,
+            4 => RawOp::Sc(gen_scale(r, d)),
+            5 => RawOp::App(gen_mesh(r, d, true)),
+            6 => gen_tv(r, d),
+            _ => RawOp::Sf(m.f),
+        });
+    }
+    (m, ops)
+}
+
 fn gen_ops(r: &mut Rng, d: usize, maxlen: u64) -> Vec<RawOp> {
     let n = r.below(maxlen + 1);
-    (0..n).map(|_| match r.below(12) {
+    (0..n).map(|_| match r.below(14) {
         0..=5 => RawOp::Sf(gen_flags(r)),
         6..=7 => RawOp::Rev,
         8..=9 => RawOp::App(gen_mesh(r, d, true)),
+        12..=13 => RawOp::Sc(gen_scale(r, d)),
         _ => { let lat = r.bool();
                if d == 3 { let q = d3::gen_quat(r, lat); let t: Vec<f64> = (0..3).map(|_| r.coord(lat, 5.0)).collect();
                            RawOp::Tv(vec![q[0], q[1], q[2], q[3], t[0], t[1], t[2]]) }
@@ -590,10 +779,21 @@ fn gen_contains(r: &mut Rng) -> String {
             _ => ops.push(RawOp::Sf(ORIENTED | (m.f & MERGE))),
         }
     }
+    // sometimes an orientation-preserving `scaled` (all components positive, or exactly two negative: a half-turn composed
+    // with a positive scale), uniform or not: the scaled mesh is still closed and outward oriented
+    if r.below(3) == 0 {
+        let lat = r.bool();
+        let mut sc: Vec<f64> = (0..3).map(|_| if lat { *r.pick(&[0.5, 1.0, 2.0, 3.0]) } else { r.uniform(0.3, 3.0) }).collect();
+        if r.below(4) == 0 { let k = sc[0]; sc = vec![k; 3]; }
+        if r.bool() { let keep = r.below(3) as usize; for k in 0..3 { if k != keep { sc[k] = -sc[k]; } } }
+        let pos = r.below(ops.len() as u64 + 1) as usize;
+        ops.insert(pos, RawOp::Sc(sc));
+    }
+    // the final buffers (real code) only serve to place the query points away from the surface
+    let fm = h3::run_ops(&m, &ops).expect("closed mesh history");
     let (mut lo, mut hi) = (vec![f64::MAX; 3], vec![f64::MIN; 3]);
-    for p in &m.v { for k in 0..3 { lo[k] = lo[k].min(p[k]); hi[k] = hi[k].max(p[k]); } }
-    // reference mesh only used to keep query points away from the surface
-    let refm = TriMesh::with_flags(m.v.iter().map(|c| Point::new(c[0], c[1], c[2])).collect(), m.i.clone(), TriMeshFlags::empty()).unwrap();
+    for p in fm.vertices() { for k in 0..3 { lo[k] = lo[k].min(p[k]); hi[k] = hi[k].max(p[k]); } }
+    let refm = TriMesh::with_flags(fm.vertices().to_vec(), fm.indices().to_vec(), TriMeshFlags::empty()).unwrap();
     let mut pts = vec![];
     while pts.len() < 6 {
         let margin = if r.bool() { 0.0 } else { 1.0 };
@@ -609,6 +809,7 @@ fn gen_contains(r: &mut Rng) -> String {
     s
 }
 
+<<<<<<< HEAD
 /// Two-step histories of the shape "build without a deleting flag, then `set_flags` with deleting flags": a clean base mesh
 /// into which degenerate (repeated index / coincident vertices), duplicate (same, rotated, flipped indices) and
 /// bad-topology (a directed edge used twice) triangles are inserted FIRST, LAST or in the middle of the index buffer.
@@ -660,6 +861,75 @@ fn gen_delete_history(r: &mut Rng, d: usize, k: u64) -> (RawMesh, Vec<RawOp>) {
     let mut ops = vec![RawOp::Sf(del | keep)];
     match r.below(8) { 0 => ops.push(RawOp::Rev), 1 => ops.push(RawOp::Sf(0)), 2 => ops.insert(0, RawOp::Rev), _ => {} }
     (m, ops)
+=======
+/// `boxscale`: a triangle (lattice with ties, or random) and a scale of any sign
+fn gen_boxscale(r: &mut Rng, d: usize) -> String {
+    let lat = r.bool();
+    let mut xs: Vec<f64> = (0..3 * d).map(|_| if lat { r.range(-8, 8) as f64 * 0.25 } else { r.uniform(-10.0, 10.0) }).collect();
+    xs.extend(gen_scale(r, d));
+    hxs(xs.iter())
+}
+
+/// well-formed meshes (no flat triangle) away from the origin, for the QBVH query probe
+fn probe_mesh(r: &mut Rng, d: usize) -> RawMesh {
+    let mut m = if d == 3 { closed_mesh(r) } else {
+        // a strip of k squares, two triangles each
+        let k = r.range(1, 4) as usize;
+        let mut v = vec![]; let mut i = vec![];
+        for x in 0..=k { v.push(vec![x as f64, 0.0]); v.push(vec![x as f64, 1.0]); }
+        for x in 0..k as u32 { i.push([2 * x, 2 * x + 2, 2 * x + 3]); i.push([2 * x, 2 * x + 3, 2 * x + 1]); }
+        let mut m = RawMesh { v, i, f: 0 };
+        if r.below(3) == 0 { m = soupify(&m); m.f = MERGE; }
+        m
+    };
+    if d == 3 && r.below(3) == 0 { // a second component
+        let b2 = closed_mesh(r); let base = m.v.len() as u32;
+        m.v.extend(b2.v.iter().map(|p| vec![p[0] + 7.0, p[1], p[2] - 5.0]));
+        m.i.extend(b2.i.iter().map(|t| [t[0] + base, t[1] + base, t[2] + base]));
+        m.f |= b2.f;
+    }
+    let tr: Vec<f64> = (0..d).map(|_| { let t = r.range(2, 12) as f64 * 0.5; if r.bool() { t } else { -t } }).collect();
+    let sc = if r.bool() { 1.0 } else { r.uniform(0.5, 2.0) };
+    for p in m.v.iter_mut() { for k in 0..d { p[k] = p[k] * sc + tr[k]; } }
+    if r.bool() { m.f |= *r.pick(&[HET, CC, HET | CC, DEL_DEGEN | MERGE, DEL_DUP | MERGE, DEL_BAD, ORIENTED, 0]); }
+    m
+}
+fn gen_bvhq(r: &mut Rng, d: usize) -> Option<String> {
+    let m = probe_mesh(r, d);
+    let mut ops = vec![];
+    for _ in 0..r.range(1, 3) {
+        ops.push(match r.below(8) {
+            0..=3 => RawOp::Sc(gen_scale(r, d)),
+            4 => RawOp::Rev,
+            5 => RawOp::Sf(m.f | *r.pick(&[HET, CC, MERGE, DEL_DEGEN | MERGE, DEL_BAD])),
+            6 => gen_tv(r, d),
+            _ => RawOp::App(probe_mesh(r, d)),
+        });
+    }
+    // the final buffers (real code) only serve to place the query points: on the triangles, near them, around the mesh
+    let fin: Vec<Vec<f64>>; let idx: Vec<[u32; 3]>;
+    if d == 3 { let fm = h3::run_ops(&m, &ops)?; fin = fm.vertices().iter().map(|p| p.coords.iter().cloned().collect()).collect(); idx = fm.indices().to_vec(); }
+    else { let fm = h2::run_ops(&m, &ops)?; fin = fm.vertices().iter().map(|p| p.coords.iter().cloned().collect()).collect(); idx = fm.indices().to_vec(); }
+    let (mut lo, mut hi) = (vec![f64::MAX; d], vec![f64::MIN; d]);
+    for p in &fin { for k in 0..d { lo[k] = lo[k].min(p[k]); hi[k] = hi[k].max(p[k]); } }
+    let mut pts: Vec<Vec<f64>> = vec![];
+    for _ in 0..6 {
+        let t = idx[r.below(idx.len() as u64) as usize];
+        let (a, b2, c) = (&fin[t[0] as usize], &fin[t[1] as usize], &fin[t[2] as usize]);
+        match r.below(4) {
+            0 => pts.push((0..d).map(|k| (a[k] + b2[k] + c[k]) / 3.0).collect()),                      // centroid of a triangle
+            1 => { let (u, v) = (r.uniform(0.05, 0.45), r.uniform(0.05, 0.45));                          // inside a triangle
+                   pts.push((0..d).map(|k| a[k] + u * (b2[k] - a[k]) + v * (c[k] - a[k])).collect()) }
+            2 => { let e = r.uniform(0.01, 0.5);                                                          // next to a vertex
+                   pts.push((0..d).map(|k| a[k] + e * r.uniform(-1.0, 1.0)).collect()) }
+            _ => pts.push((0..d).map(|k| r.uniform(lo[k] - 1.0, hi[k] + 1.0)).collect()),                // around the mesh
+        }
+    }
+    let mut s = show_case(&m, &ops);
+    s.push_str(&format!(" {}", pts.len()));
+    for p in &pts { s.push(' '); s.push_str(&hxs(p.iter())); }
+    Some(s)
+>>>>>>> fu2-F11
 }
 
 pub fn gen(r: &mut Rng, thorough: bool) -> Vec<(String, String)> {
@@ -690,6 +960,23 @@ pub fn gen(r: &mut Rng, thorough: bool) -> Vec<(String, String)> {
     }
     for _ in 0..(if thorough { 6000 } else { 600 }) {
         out.push(("contains3".to_string(), gen_contains(r)));
+    }
+    // `scaled`: histories around a (mirroring) scale, the box law, and QBVH-backed queries after the history
+    for _ in 0..(if thorough { 8000 } else { 800 }) {
+        let (m, ops) = gen_scaled_hist(r, 3);
+        out.push(("hist3".to_string(), show_case(&m, &ops)));
+    }
+    for _ in 0..(if thorough { 4000 } else { 400 }) {
+        let (m, ops) = gen_scaled_hist(r, 2);
+        out.push(("hist2".to_string(), show_case(&m, &ops)));
+    }
+    for _ in 0..(if thorough { 2000 } else { 200 }) {
+        out.push(("boxscale3".to_string(), gen_boxscale(r, 3)));
+        out.push(("boxscale2".to_string(), gen_boxscale(r, 2)));
+    }
+    for _ in 0..(if thorough { 3000 } else { 300 }) {
+        if let Some(c) = gen_bvhq(r, 3) { out.push(("bvhq3".to_string(), c)); }
+        if let Some(c) = gen_bvhq(r, 2) { out.push(("bvhq2".to_string(), c)); }
     }
     out
 }
